@@ -161,12 +161,14 @@ def register(reg):
                  note='text input is encoded as latin-1 (identity on code points < 256, L5)',
                  serves=['C19', 'C02']))
     add(Contract(M + 'BitStringBitWriter.set_uint', {'self': W, 'value': INT, 'nbits': INT, 'bitpos': INT},
-                 requires=['1 <= nbits <= 64', '0 <= value < pow2(nbits)', '0 <= bitpos',
-                           'bitpos + nbits <= wlen(self)'],
+                 requires=['1 <= nbits <= 64', '0 <= bitpos', 'bitpos + nbits <= wlen(self)'],
                  modifies=wmod,
                  ensures=['wlen(self) == old(wlen(self))',
                           'U(wbits(self), bitpos, nbits) == value',
                           'outside_same(wbits(self), old(wbits(self)), bitpos, bitpos + nbits)'],
+                 # a value that does not fit the field is refused and the stream is left as it was
+                 raises={'ValueError': 'value < 0 or value >= pow2(nbits)'}, must_raise=[('ValueError', 'value < 0 or value >= pow2(nbits)')],
+                 exc_ensures={'ValueError': ['wlen(self) == old(wlen(self))']},
                  serves=['C19', 'C04'],
                  note='in-place overwrite changes exactly those bits, for every width (D-1)'))
     add(Contract(M + 'BitWriter.write', {'self': W, 'value': VAL, 'data_type': STR, 'nbits': INT}, returns=VAL,
@@ -178,6 +180,8 @@ def register(reg):
                            "implies(data_type == 'bool', is_bool(value))",
                            "implies(data_type == 'bin', is_txt(value) and is_binstr(tval(value)))"],
                  modifies=wmod,
+                 # whatever the type: the stream only grows, what was written before stays (unconditional, so that callers need no case split)
+                 ensures=['wlen(self) >= old(wlen(self))', 'prefix_same(wbits(self), old(wbits(self)), old(wlen(self)))'],
                  cases=[('uint', "data_type == 'uint'",
                          ['wlen(self) == old(wlen(self)) + nbits', 'U(wbits(self), old(wlen(self)), nbits) == ival(value)',
                           'prefix_same(wbits(self), old(wbits(self)), old(wlen(self)))']),
@@ -186,9 +190,13 @@ def register(reg):
                           'prefix_same(wbits(self), old(wbits(self)), old(wlen(self)))']),
                         ('bool', "data_type == 'bool'",
                          ['wlen(self) == old(wlen(self)) + 1',
-                          'U(wbits(self), old(wlen(self)), 1) == (1 if oval(value) else 0)']),
+                          'U(wbits(self), old(wlen(self)), 1) == (1 if oval(value) else 0)',
+                          'prefix_same(wbits(self), old(wbits(self)), old(wlen(self)))']),
                         ('bin', "data_type == 'bin'",
-                         ['wlen(self) == old(wlen(self)) + len(tval(value))']),
-                        ('int', "data_type == 'int'", ['wlen(self) == old(wlen(self)) + nbits'])],
+                         ['wlen(self) == old(wlen(self)) + len(tval(value))',
+                          'Bin(wbits(self), old(wlen(self)), len(tval(value))) == tval(value)',
+                          'prefix_same(wbits(self), old(wbits(self)), old(wlen(self)))']),
+                        ('int', "data_type == 'int'", ['wlen(self) == old(wlen(self)) + nbits',
+                                                       'prefix_same(wbits(self), old(wbits(self)), old(wlen(self)))'])],
                  raises={'ValueError': None},
                  serves=['C19', 'C04']))
